@@ -757,8 +757,17 @@ pub fn on_epoch(w: &mut World, p: usize, g: usize, how: &str) -> VResult<()> {
             .iter()
             .any(|r| !w.msgs[r].ext_psks.is_empty() || !w.msgs[r].res_psks.is_empty());
         if !byref_psk && msg.spec.is_some() {
-            let mut want: Vec<(Option<Vec<u8>>, Option<u64>)> = msg.ext_psks.iter().map(|i| (Some(vec![b'k', *i]), None)).collect();
-            want.extend(msg.res_psks.iter().map(|e| (None, Some(*e))));
+            let exts: Vec<(Option<Vec<u8>>, Option<u64>)> = msg.ext_psks.iter().map(|i| (Some(vec![b'k', *i]), None)).collect();
+            let ress: Vec<(Option<Vec<u8>>, Option<u64>)> = msg.res_psks.iter().map(|e| (None, Some(*e))).collect();
+            let res_first = msg.spec.as_ref().map(|s| s.res_first).unwrap_or(false);
+            let mut want = vec![];
+            if res_first {
+                want.extend(ress.clone());
+            }
+            want.extend(exts);
+            if !res_first {
+                want.extend(ress);
+            }
             let got: Vec<(Option<Vec<u8>>, Option<u64>)> = fw
                 .psks
                 .iter()
